@@ -136,9 +136,62 @@ def gen_unit_cases(r, n, tc):
                 cases.append(("PC 1 %s %s" % (sch, G.hx(raw)), meta))
             else:
                 cases.append(("PF 1 %s %s" % (sch, G.hx(c)), meta))
-        elif m < 0.93:
+        elif m < 0.90:
             sch, c, tag = G.gen_nested_case(r)
             cases.append(("NP 1 %s %s" % (sch, G.hx(c)), {"kind": "NP", "tag": tag, "conf": c}))
+        elif m < 0.94:
+            # index files, to_lower, check_ascii, repeated-keyword values
+            mm = r.random()
+            if mm < 0.5:
+                groups, names = [], r.sample(["g", "group1", "Protein", "C-alpha", "a_b", "x1", "h"], r.randint(1, 4))
+                for nm_ in names:
+                    groups.append((nm_, [r.randint(1, 99999) for _ in range(r.randint(0, 6))]))
+                sp = lambda: bytes(r.choice(b"  \n\t") for _ in range(r.randint(1, 3)))
+                txt = b"".join(b"[" + sp() + g.encode() + sp() + b"]" + b"".join(sp() + str(n).encode() for n in ns) + sp() for g, ns in groups)
+                tag = "valid"
+                k = r.random()
+                if k < 0.5:
+                    tag = r.choice(["text-for-number", "zero", "negative", "glued-header", "no-bracket", "bytes", "redefined"])
+                    toks = txt.split()
+                    nums = [i for i, t in enumerate(toks) if t.isdigit()]
+                    if tag in ("text-for-number", "zero", "negative") and nums:
+                        i = r.choice(nums)
+                        toks[i] = {"text-for-number": r.choice([b"x", b"1.5", b"12a", b"0x1f"]), "zero": b"0", "negative": b"-3"}[tag]
+                        if tag != "text-for-number" and i == len(toks) - 1:
+                            toks.append(b"7")
+                        txt = b" ".join(toks)
+                    elif tag == "glued-header":
+                        txt = txt.replace(b"]", b" ]").replace(b"[ ", b"[").replace(b"[\n", b"[").replace(b"[\t", b"[")
+                        txt = re.sub(rb"\s+\]", b"]", txt, count=1)
+                    elif tag == "no-bracket":
+                        txt = txt.replace(b"]", b"", 1)
+                    elif tag == "redefined":
+                        txt = txt + b" [ " + groups[0][0].encode() + b" ] 100001 100002 "
+                    elif tag == "bytes":
+                        txt = G.mutate_bytes(r, txt)
+                    else:
+                        tag = "valid"
+                cases.append(("IX %s" % G.hx(txt), {"kind": "IX", "tag": tag, "groups": groups, "text": txt}))
+            elif mm < 0.6:
+                t = bytes(r.randint(0, 255) for _ in range(r.randint(0, 24)))
+                cases.append(("TL %s" % G.hx(t), {"kind": "TL", "text": t}))
+            elif mm < 0.65:
+                t = G.gen_malformed(r, keys) + bytes(r.randint(128, 255) for _ in range(r.randint(0, 3)))
+                cases.append(("CA %s" % G.hx(t), {"kind": "CA"}))
+            elif mm < 0.75:
+                sc = G.gen_struct_conf(r, keys[:6], r.randint(2, 7))
+                kw = r.choice(G.first_tokens(sc) or [b"width"])
+                cases.append(("KM %s %s" % (G.hx(sc), G.hx(G.rcase(r, kw))), {"kind": "KM"}))
+            else:
+                # parse modes and key_already_set: the same keyword, 2-5 calls on one object
+                calls = []
+                for _ in range(r.randint(2, 5)):
+                    mode = r.choice("srrondq")
+                    k = r.random()
+                    txt = (b"other 1\n" if k < 0.4 else b"width %s\n" % r.choice(G.NUMBER_TOKENS + G.BAD_NUMBER_TOKENS[:6]).encode() if k < 0.8
+                           else b"width\n" if k < 0.9 else b"width 1\nwidth 2\n")
+                    calls.append((mode, txt))
+                cases.append(("KV %s %s" % (G.hx("width"), "|".join("%s:%s" % (m_, G.hx(t)) for m_, t in calls)), {"kind": "KV", "calls": calls}))
         elif m < 0.95:
             # successive key_lookup calls on one parser object through one string object; half of the time the texts
             # have EQUAL length and the later one holds a keyword that the earlier one lacks at that place
@@ -222,6 +275,20 @@ def value_oracle(meta, impl):
     lines = conf.split(b"\n")
     for (kind, key), v in zip(sch, vals):
         kind = kind.rstrip("!")
+        if kind in ("U", "L"):
+            if v == "-":
+                continue
+            cand = [l for l in lines if l.strip(b" \t").lower().split()[:1] == [key.lower()]]
+            if len(cand) != 1 or b"{" in conf or b"}" in conf or b"#" in conf or b"\r" in conf:
+                continue
+            t = cand[0].strip(b" \t")[len(key):].strip(ISSPACE)
+            lo, hi = (0, 2 ** 64 - 1) if kind == "U" else (-2 ** 63, 2 ** 63 - 1)
+            if not INT_RE.match(t) or (kind == "U" and b"-" in t) or not (lo <= int(t) <= hi):
+                return ("strict:integer:%s" % ("negative-unsigned-accepted" if kind == "U" and t.startswith(b"-") else "malformed-accepted"),
+                        "keyword %r (%s): value text %r accepted as %s" % (key, "size_t" if kind == "U" else "long", t, v))
+            if int(t) != int(v):
+                return ("value:integer", "keyword %r: value text %r read as %s" % (key, t, v))
+            continue
         if kind not in ("R", "I", "V") and kind[0] not in "NT":
             continue
         if v == "-":
@@ -451,6 +518,14 @@ MODULE_WITNESSES = [
     ("strict:module:unknown-keyword-in-atom-group", 4, DZ % ("atomNumbers 1\n      fooBar 2", "0.25"), False, "unknown keyword in an atom group block"),
     ("strict:module:unknown-keyword-in-bias", 4, (DZ % ("atomNumbers 1", "0.25")).replace("  forceConstant 4.0\n", "  forceConstant 4.0\n  fooBar 2\n"), False,
      "unknown keyword in a bias block"),
+    ("strict:integer:negative-unsigned-accepted", 4, "colvarsTrajFrequency -5\n" + DZ % ("atomNumbers 1", "0.25"), False,
+     "`colvarsTrajFrequency -5` (an unsigned setting) is accepted"),
+    ("ok", 4, "indexFile c09_good.ndx\n" + DZ % ("indexGroup g", "0.25"), True, "reference (index file)"),
+    ("strict:index:text-for-number-accepted", 4, "indexFile c09_bad.ndx\n" + DZ % ("indexGroup g", "0.25"), False,
+     "an index file with `[ g ] 1 2 x 3` is accepted (g = 1 2, the rest of the file ignored)"),
+    ("ok", 4, "units real\n" + DZ % ("atomNumbers 1", "0.25"), True, "reference (units real)"),
+    ("ok", 4, "UNITS Real\n" + DZ % ("atomNumbers 1", "0.25"), True, "reference (units, letter case)"),
+    ("strict:module:unknown-units-accepted", 4, "units furlongs\n" + DZ % ("atomNumbers 1", "0.25"), False, "`units furlongs` is accepted"),
     # a misspelling that is a proper PREFIX of an optional keyword of the same block (the whole word must match)
     ("strict:module:keyword-prefix-accepted", 4, "colvarsTrajFreq 5\n" + DZ % ("atomNumbers 1", "0.25"), False, "`colvarsTrajFreq 5` (prefix of colvarsTrajFrequency) at the module level"),
     ("strict:module:keyword-prefix-accepted", 4, (DZ % ("atomNumbers 1", "0.25")).replace("  width 0.5\n", "  width 0.5\n  upperBound 3.0\n"), False,
@@ -932,6 +1007,9 @@ def check(run):
         for l in open(cp):
             l = l.strip()
             if l and not l.startswith("#"):
+                if l.split()[0] in ("KV", "IX"):
+                    cases.append((l, {"kind": l.split()[0], "tag": "corpus", "calls": [("s", b"width")], "groups": [], "text": b""}))
+                    continue
                 if l.split()[0] in ("PS", "MS"):
                     cases.append((l, {"kind": l.split()[0], "tags": ["corpus"], "schema": l.split()[2], "confs": [G.unhx(x) for x in l.split()[3].split("|")]}))
                     continue
@@ -941,7 +1019,7 @@ def check(run):
     ncorpus = len(cases)
     cases += gen_unit_cases(r, 2500 if quick else 60000, tc)
     lines = [c for c, _ in cases]
-    rc1, impl, e1 = V.run_lines(unit, lines, timeout=900)
+    rc1, impl, e1 = V.run_lines(unit, lines, timeout=900, cwd=V.scratch("C09unit"))
     rc2, mod, e2 = V.run_lines(model, lines, timeout=1800)
     if len(impl) != len(lines):
         k = len(impl)
@@ -958,6 +1036,9 @@ def check(run):
         if kind == "KL":
             nontriv = io.startswith("found") or io.startswith("error")
             run.dist("unit:KL:" + meta.get("stream", "?").split(":")[0])
+        elif kind in ("IX", "TL", "CA", "KM", "KV"):
+            nontriv = kind != "CA"
+            run.dist("unit:%s%s" % (kind, (":" + meta["tag"] + ":" + io.split()[0]) if kind == "IX" else ""))
         elif kind == "KS":
             nontriv = "found" in io
             run.dist("unit:KS:%d:%s" % (len(meta["calls"]), "equal-length" if len(set(len(c) for c, _ in meta["calls"])) == 1 else "any"))
@@ -997,6 +1078,25 @@ def check(run):
                 bad = ("layout:key_lookup", "key_lookup of %r in %r gives %s, the value written is %r" % (G.unhx(w[2]), G.unhx(w[1]), io, meta["expect"]))
         elif kind in ("PF", "PC") and meta.get("tag") != "corpus":
             bad = flat_oracle(meta, io) or value_oracle(meta, io)
+        elif kind == "IX":
+            if meta["tag"] == "valid":
+                exp = "ok " + ";".join("%s=%s" % (G.hx(g), ",".join(map(str, ns))) for g, ns in meta["groups"])
+                if io.strip() != exp.strip():
+                    bad = ("index:valid-file-misread", "the index file %r is read as %s, it defines %s" % (meta["text"], io, meta["groups"]))
+            elif meta["tag"] in ("text-for-number", "zero", "negative", "glued-header", "no-bracket", "redefined") and io.startswith("ok"):
+                bad = ("strict:index:%s-accepted" % meta["tag"], "the index file %r (%s) is accepted: %s" % (meta["text"], meta["tag"], io))
+        elif kind == "KV":
+            # a required keyword missing from the text of the FIRST call on a fresh object must be an error
+            outs = io.split(";")
+            m0, t0 = meta["calls"][0]
+            if m0 in "rq" and not t0.startswith(b"width") and len(outs) and outs[0].split("/")[1] != "1":
+                bad = ("strict:required-keyword-missing-accepted", "get_keyval with parse_required on a fresh parser object, keyword absent: no error (%s)" % outs[0])
+        elif kind == "TL":
+            exp = bytes((c + 32) if 65 <= c <= 90 else c for c in meta["text"])
+            if G.hx(exp) != io:
+                bad = ("to_lower", "to_lower_cppstr(%r) = %r" % (meta["text"], G.unhx(io)))
+        elif kind == "CA" and io != "ok":
+            bad = ("check_ascii", "check_ascii fails")
         elif kind == "KS":
             # every lookup of the sequence == the same lookup by a fresh parser object (asked from the implementation)
             _, alone, _ = V.run_lines(unit, ["KL %s %s 0" % (G.hx(c), G.hx(k)) for c, k in meta["calls"]])
@@ -1020,7 +1120,7 @@ def check(run):
         if bad:
             run.violation(bad[0], bad[1], {"kind": "unit", "case": c, "impl": io, "model": mo})
         if io != mo:
-            comp = "unit:" + {"KL": "key_lookup", "CB": "braces", "SC": "comments", "SS": "split_string", "PF": "strict:flat", "PC": "strict:flat", "NP": "strict:nested", "MS": "strict:sequence", "PS": "strict:sequence", "KS": "sequence"}.get(kind, kind)
+            comp = "unit:" + {"KL": "key_lookup", "CB": "braces", "SC": "comments", "SS": "split_string", "PF": "strict:flat", "PC": "strict:flat", "NP": "strict:nested", "MS": "strict:sequence", "PS": "strict:sequence", "KS": "sequence", "IX": "strict:index", "KM": "key_lookup", "KV": "strict:modes"}.get(kind, kind)
             if kind in ("PF", "PC"):
                 # is it the pinned (lenient) value rule?  then the repaired defect is back: name it
                 rcl, ml, _ = V.run_lines(model, [c.replace(kind + " 1 ", kind + " 0 ", 1)])
@@ -1196,6 +1296,18 @@ def check(run):
             run.violation("sequence:objects-depend-on-history", "the objects created by the last configuration of a sequence (%s) differ from those of a fresh module: %s/%s vs %s/%s" % (
                 descr, ns, objs_s[:2], nf, objs_f[:2]), rp)
     # whole-module witnesses of the repaired defects
+    open(os.path.join(d, "c09_good.ndx"), "w").write("[ g ]\n 1 2\n[ other ] 3 4\n")
+    open(os.path.join(d, "c09_bad.ndx"), "w").write("[ g ] 1 2 x 3\n[ other ] 3 4\n")
+    # the same configuration through a file (configfile) and as a string must give the same result
+    for name, natoms, conf in TEMPLATES:
+        pos = ["pos %d %d %d %d" % (i + 1, i, 2 * i, 3 * i + 1) for i in range(natoms)]
+        open(os.path.join(d, "c09_conf.in"), "w").write(conf)
+        rc1_, o1_, _ = run_scn(unit, d, "cfs", scenario(natoms, pos, conf.encode()))
+        rc2_, o2_, _ = run_scn(unit, d, "cff", scenario(natoms, pos, conf.encode()).replace("confighex %s" % G.hx(conf.encode()), "configfile c09_conf.in"))
+        run.count("configfile:" + name, True)
+        if observables(o1_) != observables(o2_) or rc2_ != 0:
+            run.violation("layout:module:configfile-differs", "the configuration %s read from a file (configfile) gives another result than the same text as a string" % name,
+                          {"kind": "module", "natoms": natoms, "positions": pos, "config": conf})
     for sig, natoms, conf, must_accept, text in MODULE_WITNESSES:
         pos = ["pos %d %d %d %d" % (i + 1, i, 2 * i, 3 * i + 1) for i in range(natoms)]
         rc, o2, e2 = run_scn(unit, d, "wit", scenario(natoms, pos, conf.encode(), 1))
